@@ -48,7 +48,7 @@ pub use atomic_shim::*;
 // tokio::sync::mpsc with the effect log (send) -- recv side is in shim tokio_mpsc
 pub mod mpsc_fx {
     use super::*;
-    pub struct SendError<T>(pub T);
+    pub use mpsc::error::SendError;
     impl mpsc::UnboundedSender<Bytes> {
         #[verifier::external_body]
         pub fn send(&self, value: Bytes, fx: &mut Ghost<Seq<Effect>>) -> (r: std::result::Result<(), SendError<Bytes>>)
